@@ -110,7 +110,15 @@ func recordTime(args []string) int {
 		if err != nil {
 			return fail(err)
 		}
-		// events are regenerated from their arguments
+		// events are regenerated from their arguments, under the zone they were recorded in
+		if z, ok := e["zone"].(string); ok && z != "" && z != "Local" {
+			loc, err := time.LoadLocation(z)
+			if err != nil {
+				return fail(err)
+			}
+			time.Local = loc
+			zone = z
+		}
 		switch e["ev"] {
 		case "date":
 			a, _ := jsonToVal(e["args"]).([]any)
